@@ -118,27 +118,27 @@ theorem memory_ratio_padded (pi : PublicInput) (z alpha size : Felt)
   ⟨Proofs.paddedColumn_length pi size hlen, Proofs.memory_ratio_padded pi z alpha size hc hlen hne⟩
 
 /-- … and if that product vanishes (some cell, or the padding cell when padding is needed, has
-    `z = addr + alpha·val`) the Rust panics on the division. -/
-theorem memory_ratio_padded_panic (pi : PublicInput) (z alpha size : Felt)
+    `z = addr + alpha·val`) the Rust returns `None`. -/
+theorem memory_ratio_padded_err (pi : PublicInput) (z alpha size : Felt)
     (hc : pi.continuousPageHeaders = []) (hlen : pi.mainPage.length ≤ size.val)
     (h0 : ((pi.mainPage ++ List.replicate (size.val - pi.mainPage.length)
         (⟨pi.paddingAddr, pi.paddingValue⟩ : AddrValue)).map
           fun c => z - (c.address + alpha * c.value)).prod = 0) :
-    ∃ s, publicMemoryProductRatio pi z alpha size = .panic s :=
-  Proofs.memory_ratio_padded_panic pi z alpha size hc hlen h0
+    ∃ s, publicMemoryProductRatio pi z alpha size = .err s :=
+  Proofs.memory_ratio_padded_err pi z alpha size hc hlen h0
 
-/-- The result is a panic exactly when the `assert!` fails or one of the two divisors is zero
-    (`inv(0)` unwrapped), and it is never an error. -/
+/-- The result is an error (`None` in the Rust) exactly when the total length exceeds the column
+    size or one of the two divisors is zero, and it never panics. -/
 theorem memory_ratio_guards (pi : PublicInput) (z alpha size : Felt) :
-    ((∃ s, publicMemoryProductRatio pi z alpha size = .panic s) ↔
+    ((∃ e, publicMemoryProductRatio pi z alpha size = .err e) ↔
       (size.val < (publicMemoryProduct pi z alpha).2.val
         ∨ (publicMemoryProduct pi z alpha).1 = 0
         ∨ (z - (pi.paddingAddr + alpha * pi.paddingValue))
             ^ (size - (publicMemoryProduct pi z alpha).2).val = 0)) ∧
-    ∀ e, publicMemoryProductRatio pi z alpha size ≠ .err e := by
-  refine ⟨?_, Proofs.memory_ratio_no_err pi z alpha size⟩
+    ∀ s, publicMemoryProductRatio pi z alpha size ≠ .panic s := by
+  refine ⟨?_, Proofs.memory_ratio_no_panic pi z alpha size⟩
   rw [Proofs.publicMemoryProduct_eq]
-  exact Proofs.memory_ratio_panic_iff pi z alpha size
+  exact Proofs.memory_ratio_err_iff pi z alpha size
 
 /-! ### non-vacuity -/
 
